@@ -990,7 +990,8 @@ impl CompositionGraph {
     ///
     /// This method panics if the provided node id is invalid.
     pub fn unexport(&mut self, node: NodeId) -> Result<(), UnexportError> {
-        let node = &mut self.graph[node.0];
+        let index = node.0;
+        let node = &mut self.graph[index];
         if let NodeKind::Definition = node.kind {
             return Err(UnexportError::MustExportDefinition);
         }
@@ -1001,7 +1002,22 @@ impl CompositionGraph {
             assert!(removed.is_some());
         }
 
+        // The node may have been exported under additional names
+        self.remove_exports_of(index);
+
         Ok(())
+    }
+
+    /// Removes every remaining export name that refers to the given node.
+    fn remove_exports_of(&mut self, index: NodeIndex) {
+        while let Some(name) = self
+            .exports
+            .iter()
+            .find_map(|(name, n)| (*n == index).then(|| name.clone()))
+        {
+            log::debug!("removing export of node as `{name}`");
+            self.exports.swap_remove(&name);
+        }
     }
 
     /// Removes a node from the graph.
@@ -1055,7 +1071,8 @@ impl CompositionGraph {
             "removing node {index} from the graph",
             index = node.0.index()
         );
-        let node = self.graph.remove_node(node.0).expect("invalid node id");
+        let index = node.0;
+        let node = self.graph.remove_node(index).expect("invalid node id");
 
         // Remove any import entry
         if let Some(name) = node.import_name() {
@@ -1070,6 +1087,9 @@ impl CompositionGraph {
             let removed = self.exports.swap_remove(name);
             assert!(removed.is_some());
         }
+
+        // The node may have been exported under additional names
+        self.remove_exports_of(index);
 
         if let NodeKind::Definition = node.kind {
             log::debug!(
